@@ -1661,7 +1661,7 @@ Section W.
   Lemma breach_uuid_loop_presW sc d us : forall t inv, P t -> pres2 P S (breach_uuid_loop sc d us t inv).
   Proof.
     induction us as [|uuid us IH]; intros t inv H; cbn [breach_uuid_loop]; [exact H|].
-    destruct (find_app (db_apps t) uuid) as [a|]; [|apply HSite].
+    destruct (find_app (db_apps t) uuid) as [a|]; [|apply IH; exact H].
     destruct (decrypt (a_blob a) d) as [p|]; [|apply IH; exact H].
     apply pres2_bind; [apply handle_breach_presW; exact H|].
     intros s t1 H1. apply IH. exact H1.
@@ -1799,7 +1799,7 @@ Lemma store_appointment_users t a t' :
 Proof.
   unfold w_store_appointment. destruct (find_app (db_apps t) (app_uuid a)).
   - intros E. inversion E. split; reflexivity.
-  - destruct (amem (db_users t) (a_user a)); [|discriminate]. intros E. inversion E. split; reflexivity.
+  - destruct (amem (db_users t) (a_user a)); intros E; inversion E; split; reflexivity.
 Qed.
 
 Lemma delete_false_users t us t' :
@@ -1810,7 +1810,8 @@ Lemma store_triggered_users sc t a d t' :
   w_store_triggered sc t a d = Ok tt t' -> gk_users t' = gk_users t /\ db_users t' = db_users t.
 Proof.
   unfold w_store_triggered. destruct (decrypt (a_blob a) d) as [p|].
-  - destruct (w_store_appointment t a) as [[] t1|] eqn:E1; [|discriminate]. cbn [bind].
+  - destruct (w_store_ok t a); [|intros E; inversion E; split; reflexivity].
+    destruct (w_store_appointment t a) as [[] t1|] eqn:E1; [|discriminate]. cbn [bind].
     destruct (r_handle_breach sc t1 (app_uuid a) d p) as [s t2|] eqn:E2; [|discriminate]. cbn [bind].
     destruct (store_appointment_users _ _ _ E1) as [A1 A2]. destruct (handle_breach_users _ _ _ _ _ _ _ E2) as [B1 B2].
     destruct (status_rejected s).
@@ -1847,10 +1848,10 @@ Proof.
   assert (Hsame : gk_users t' = gk_users t -> False) by (intros Hs; rewrite Hs in Hv'; assert (ui = ui') by congruence; subst; lia).
   destruct (authenticate t signer) as [u|] eqn:Ea; [|inversion E; subst; exfalso; auto].
   apply authenticate_Some in Ea. destruct Ea as [Hs _].
-  destruct (gk_get t u) as [ui0|] eqn:Eg; [|discriminate].
+  destruct (gk_get t u) as [ui0|] eqn:Eg; [|inversion E; subst; exfalso; auto].
   destruct (N.leb (u_expiry ui0) (gk_height t)); [inversion E; subst; exfalso; auto|].
   destruct (find_trk (db_trks t) (loc, u)); [inversion E; subst; exfalso; auto|].
-  unfold gk_add_update_appointment in E. rewrite Eg in E.
+  unfold gk_add_update_appointment in E. rewrite Eg in E. cbv zeta in E.
   set (used := match find_app (db_apps t) (loc, u) with Some a => slots_of (b_len (a_blob a)) | None => 0 end) in *.
   destruct (N.leb (slots_of (b_len b)) (u_slots ui0 + used)) eqn:Ele; cbn [bind] in E; [|inversion E; subst; exfalso; auto].
   set (s := (u_slots ui0 + used - slots_of (b_len b)) mod U32MOD) in *.
@@ -1858,9 +1859,11 @@ Proof.
   assert (Hg : gk_users t' = gk_users t1).
   { destruct (ti_get (w_cache t1) loc) as [dispute|].
     - destruct (w_store_triggered sc t1 _ dispute) as [[] t2|] eqn:E2; [|discriminate]. cbn [bind] in E.
-      inversion E. subst. apply (store_triggered_users _ _ _ _ _ E2).
+      match type of E with context [if ?c then _ else _] => destruct c end;
+        inversion E; subst; apply (store_triggered_users _ _ _ _ _ E2).
     - destruct (w_store_appointment t1 _) as [[] t2|] eqn:E2; [|discriminate]. cbn [bind] in E.
-      inversion E. subst. apply (store_appointment_users _ _ _ E2). }
+      match type of E with context [if ?c then _ else _] => destruct c end;
+        inversion E; subst; apply (store_appointment_users _ _ _ E2). }
   rewrite Hg in Hv'. unfold t1, p_set_user, db_update_user in Hv'. cbn [gk_users set_db_users] in Hv'.
   rewrite aget_gk_put in Hv'. destruct (N.eqb v u) eqn:Evu.
   2:{ assert (ui = ui') by congruence. subst. lia. }
@@ -2456,14 +2459,15 @@ Section Sites.
   Proof.
     intros H. unfold w_store_appointment. destruct (find_app (db_apps t) (app_uuid a)).
     - cbn [pres2]. eapply chain_inv_core; [|exact H]. repeat split.
-    - destruct (amem (db_users t) (a_user a)); [|apply HSite].
+    - destruct (amem (db_users t) (a_user a)); [|exact H].
       cbn [pres2]. eapply chain_inv_core; [|exact H]. repeat split.
   Qed.
 
   Lemma store_triggered_chain sc t a d : chain_inv t -> pres2 chain_inv S (w_store_triggered sc t a d).
   Proof.
     intros H. unfold w_store_triggered. destruct (decrypt (a_blob a) d) as [p|].
-    - apply pres2_bind; [apply store_appointment_chain; exact H|]. intros _ t1 H1.
+    - destruct (w_store_ok t a); [|exact H].
+      apply pres2_bind; [apply store_appointment_chain; exact H|]. intros _ t1 H1.
       apply pres2_bind; [apply (handle_breach_presW _ chain_inv_stableW S HSite); exact H1|]. intros s t2 H2.
       destruct (status_rejected s); [|exact H2]. unfold gk_delete_appointments. cbn [pres2].
       apply (sw_delete _ chain_inv_stableW). exact H2.
@@ -2476,15 +2480,16 @@ Section Sites.
   Proof.
     intros H. unfold w_add_appointment.
     destruct (authenticate t signer) as [u|]; [|exact H].
-    destruct (gk_get t u) as [ui|] eqn:Eg; [|apply HSite].
+    destruct (gk_get t u) as [ui|] eqn:Eg; [|exact H].
     destruct (N.leb (u_expiry ui) (gk_height t)); [exact H|].
     destruct (find_trk (db_trks t) (loc, u)); [exact H|].
     apply pres2_bind.
     - unfold gk_add_update_appointment. rewrite Eg.
       match goal with |- context [if ?c then _ else _] => destruct c end; cbn [pres2]; [|exact H].
       eapply chain_inv_core; [|exact H]. repeat split.
-    - intros charged t1 H1. destruct charged as [av|]; [|exact H1].
-      apply pres2_bind; [|intros _ t2 H2; exact H2].
+    - intros charged t1 H1. destruct charged as [av|]; [|exact H1]. cbv zeta.
+      apply pres2_bind;
+        [|intros _ t2 H2; match goal with |- context [if ?c then _ else _] => destruct c end; exact H2].
       destruct (ti_get (w_cache t1) loc); [apply store_triggered_chain|apply store_appointment_chain]; exact H1.
   Qed.
 
